@@ -2,7 +2,9 @@
 package checks
 
 import (
+	"encoding/json"
 	"fmt"
+	"os"
 	"sort"
 
 	"go.mongodb.org/mongo-driver/bson"
@@ -15,6 +17,25 @@ type Ctx struct {
 	R      *ev.Run
 	Tier   string
 	Replay string
+}
+
+// ReplayCalls returns the call sequence recorded in the replay file given with --replay (nil otherwise).
+func (c *Ctx) ReplayCalls() []string {
+	if c.Replay == "" {
+		return nil
+	}
+	b, err := os.ReadFile(c.Replay)
+	if err != nil {
+		fmt.Fprintln(os.Stderr, "replay file:", err)
+		os.Exit(2)
+	}
+	var f struct {
+		Replay struct {
+			Calls []string `json:"calls"`
+		} `json:"replay"`
+	}
+	_ = json.Unmarshal(b, &f)
+	return f.Replay.Calls
 }
 
 // Quick reports whether this is the quick tier.
